@@ -218,6 +218,10 @@ func (c *Case) StdSimViolations(sr *SimResult, entry string, hangIsViolation boo
 		c.Violate("livelock", entry, "step budget of %d exceeded", sr.RT.MaxSteps)
 		return true
 	}
+	if sr.Aborted == "spin" {
+		c.Violate("livelock", entry, "a task passed a million file-system points without reaching a scheduling point")
+		return true
+	}
 	if sr.Hang {
 		if hangIsViolation {
 			c.Violate("hang", entry, "no task can run and none is sleeping: %s %s", strings.Join(sr.RT.HangTasks, ","), sr.Deadlock)
